@@ -102,8 +102,8 @@ THEOREMS = ["Marwood.Proofs.C12." + t for t in [
     "machine_slice_capacity_bounded", "session_capacity_bounded", "failingExt_allocOnly", "allocExt_allocOnly", "hCons_inv"]]
 
 CHEAP = ["pairs", "vectors", "strings", "symbols", "bignums", "sliced"]
-MEDIUM = ["closures", "continuations"]
-COMPILING = ["eval", "toplevel", "mixed", "errors", "syntaxerrors", "unbound", "globalrefs", "evallex"]
+MEDIUM = ["closures", "continuations", "contchain"]
+COMPILING = ["eval", "toplevel", "mixed", "errors", "syntaxerrors", "unbound", "globalrefs", "evallex", "shorterrors"]
 
 
 def streams(ctx):
